@@ -20,6 +20,41 @@ def operand (a : Args) (p : String) : Option Val := do
   | "right" => some (Val.right base)
   | _ => none
 
+/-- operand of the `disp` op (dispatch coverage, harness/h_c18b.cpp): kinds num|ct|idx|idxa|idxc|nd|tup,
+    wrappers plain|just|nothing|N|left|right|jleft|jright|enothing|lj|ln|mr -/
+def operandD (a : Args) (p : String) : Option Val := do
+  let w := (a.get? (p ++ "w")).getD "plain"
+  if w == "N" then return Val.lit
+  let k ← a.get? (p ++ "k")
+  let d ← a.ints (p ++ "d")
+  let base ← match k with
+    | "num" | "ct" => d.head?.map Val.num
+    | "idx" | "idxa" | "idxc" => some (Val.idx d)
+    | "nd" => (a.nats (p ++ "s")).map (fun s => Val.nd s d)
+    | "tup" => d.head?.map (fun h => Val.pair (.num h) (.pair (.nd [d.length - 1] d.tail) .unit))
+    | _ => none
+  match w with
+  | "plain" => some base
+  | "nothing" => some Val.nothing
+  | "just" => some (Val.just base)
+  | "left" => some (Val.left base)
+  | "right" => some (Val.right base)
+  | "jleft" => some (Val.just (Val.left base))
+  | "jright" => some (Val.just (Val.right base))
+  | "enothing" => some Val.nothing
+  | "lj" => some (Val.left (Val.just base))
+  | "ln" => some (Val.left Val.nothing)
+  | "mr" => some (Val.right base)
+  | _ => none
+
+def fmtBoth : Res → Res → String
+  | .val x, .val y => s!"ok {x} rev={y}"
+  | .notAccepted, .notAccepted => "not-accepted"
+  | .oob, _ => "oob"
+  | _, .oob => "oob"
+  | .val _, .notAccepted => "ok-only-forward"
+  | .notAccepted, .val _ => "ok-only-reverse"
+
 def fmtRes : Res → String
   | .val true => "ok true"
   | .val false => "ok false"
@@ -32,6 +67,15 @@ def handle : Handler := fun op a =>
       let x ← operand a "a"
       let y ← operand a "b"
       pure (fmtRes (isequal x y))
+  | "disp" => orBad do
+      let x ← operandD a "a"
+      let y ← operandD a "b"
+      let fn ← a.get? "fn"
+      if fn == "isclose" then
+        let eps := (a.int "eps").getD defaultEps
+        pure (fmtBoth (isclose eps x y) (isclose eps y x))
+      else
+        pure (fmtBoth (isequal x y) (isequal y x))
   | "isequal_tup" => orBad do
       -- tuple (num, index array) on both sides
       let an ← a.int "an"; let ad ← a.ints "ad"; let bn ← a.int "bn"; let bd ← a.ints "bd"
